@@ -172,6 +172,51 @@ func c03(c *Ctx) {
 						}
 					}
 				}
+				// a response bearing a fatal result is handed back at once: it is
+				// never re-run, and every round examines all results before it
+				// may fetch and iterate.
+				var fatalT []cfgx.Edge
+				var fatalCmp *ssa.BinOp
+				for _, b := range rf.Blocks {
+					for _, in := range b.Instrs {
+						if bo, ok := in.(*ssa.BinOp); ok && bo.Op == token.EQL && hasSuffixCall(bo.X, ".GetSeverity") {
+							if v, ok := cfgx.ConstInt(bo.Y); ok && v == 1 && flow.Default.Any(bo.X, func(y ssa.Value) bool { return hasSuffixCall(y, "RunFunctionResponse).GetResults") }) {
+								t, _ := cfgx.CondEdges(bo)
+								fatalT = append(fatalT, t...)
+								fatalCmp = bo
+							}
+						}
+					}
+				}
+				if len(fatalT) == 0 {
+					c.R.Bad(load.FuncName(rf)+": fatal result ends the rounds", c.pos(inner[0].Pos()), "no test of the response's results for SEVERITY_FATAL: a fatal response whose requirements changed is discarded and the function is run again")
+				} else {
+					again, w := cfgx.ReachableFromEdges(fatalT, inner[0], nil, c.posf())
+					c.R.Check(!again, load.FuncName(rf)+": fatal result ends the rounds", c.pos(fatalCmp.Pos()), "the function is not run again after a fatal result", "the function can be run again after it returned a fatal result (the fatal response is lost)", w...)
+					rl := cfgx.LoopOf(fatalCmp.Block())
+					if rl == nil || rl[inner[0].Block()] {
+						c.R.Bad(load.FuncName(rf)+": all results examined", c.pos(fatalCmp.Pos()), "the fatal test is not inside a loop over the response's results")
+					} else {
+						h2 := cfgx.LoopHeader(rl)
+						skip, w2 := cfgx.ReachesAvoidingBlocks(okEdges(inner[0]), h, map[*ssa.BasicBlock]bool{h2: true}, nil, c.posf())
+						early := false
+						for _, e := range cfgx.ExitEdgesOf(rl) {
+							if e.From == h2 {
+								continue
+							}
+							isFatal := false
+							for _, f := range fatalT {
+								if f == e {
+									isFatal = true
+								}
+							}
+							if !isFatal {
+								early = true
+							}
+						}
+						c.R.Check(!skip && !early, load.FuncName(rf)+": all results examined", c.pos(fatalCmp.Pos()), "every round passes the complete results loop before it iterates", "a round can iterate without examining every result for SEVERITY_FATAL", w2...)
+					}
+				}
 				nSucc := 0
 				for _, b := range rf.Blocks {
 					r, ok := b.Instrs[len(b.Instrs)-1].(*ssa.Return)
@@ -275,7 +320,7 @@ func c03(c *Ctx) {
 			}
 			// the label-cleanup Update precedes Delete and its failure (other than NotFound) returns
 			for _, u := range upds {
-				c.requireCross(site(dels[0])+" after-label-cleanup", dels[0], okEdges(u), "ok-or-NotFound(Update)")
+				c.requireCross(site(dels[0])+" after-label-cleanup", dels[0], okEdges(u, "IgnoreNotFound"), "ok-or-NotFound(Update)")
 			}
 		}
 		// owner check
@@ -344,7 +389,7 @@ func c03(c *Ctx) {
 		}
 		for _, d := range calls(as, clientDelete) {
 			for _, u := range calls(as, clientUpdate) {
-				c.requireCross(site(d)+" after-label-cleanup", d, okEdges(u), "ok-or-NotFound(Update)")
+				c.requireCross(site(d)+" after-label-cleanup", d, okEdges(u, "IgnoreNotFound"), "ok-or-NotFound(Update)")
 			}
 			// a failed delete returns an error (keeps the reference)
 			ev := cfgx.ErrEvents(d)
